@@ -41,6 +41,8 @@ func main() {
 		w.Flush()
 	case "sweep":
 		runSweep(os.Args[2:])
+	case "race":
+		runRace(os.Args[2:])
 	default:
 		fmt.Fprintln(os.Stderr, "unknown subcommand", os.Args[1])
 		os.Exit(2)
